@@ -3,6 +3,7 @@ Driver glue for the `phyrx` engine and the executable oracle of C16.
 -/
 import ProfiVerif.Driver.Codec
 import ProfiVerif.Model.PhyRx
+import ProfiVerif.Model.TelegramSpec
 
 namespace PV.Driver
 open PV
@@ -74,6 +75,17 @@ structure O16 where
   delivered : List Telegram := []
   pending : Nat := 0
   garbageDone : Bool := false
+  /-- bytes of `arrived` already handed over as telegrams -/
+  offset : Nat := 0
+
+/-- Each delivered telegram must be what the frame at the current stream position denotes (as the flat
+decoder specification reads it), consuming exactly that frame. -/
+def walkDelivered (arrived : Bytes) : Nat → List Telegram → Option Nat
+  | off, [] => some off
+  | off, t :: rest =>
+    match decodeSpec (arrived.drop off) with
+    | .accept t' n => if t' = t ∧ n > 0 then walkDelivered arrived (off + n) rest else none
+    | _ => none
 
 def oracleC16 (s : O16) (op obs : String) : O16 × Option (String × String) :=
   let fail (why : String) := (s, some ("C16", why))
@@ -108,18 +120,23 @@ def oracleC16 (s : O16) (op obs : String) : O16 × Option (String × String) :=
         if !flagsOk then (s', some ("C16", s!"is_last flags inconsistent with pending={pend}: {obs}"))
         else if !retOk then (s', some ("C16", s!"return value inconsistent: {obs}"))
         else if s.mode = "valid" then
-          -- nothing lost, duplicated or reordered: delivered ++ still-buffered = arrived
-          let w := streamOf s'.delivered
-          if w ++ (s.arrived.drop w.length) = s.arrived ∧ w.length + pend = s.arrived.length then (s', none)
-          else (s', some ("C16", "delivered telegrams + buffered bytes ≠ bytes that arrived"))
+          -- nothing lost, duplicated or reordered: the telegrams handed over are exactly the frames at the
+          -- stream position, and consumed + still-buffered = arrived
+          match walkDelivered s.arrived s.offset (calls.map Prod.fst) with
+          | some off' =>
+            if off' + pend = s.arrived.length then ({ s' with offset := off' }, none)
+            else (s', some ("C16", s!"consumed {off'} + buffered {pend} ≠ arrived {s.arrived.length} bytes"))
+          | none => (s', some ("C16", "a delivered telegram is not the frame at the stream position (lost, duplicated, reordered or mis-sized)"))
         else if s.mode = "garbage" ∧ !s.garbageDone then
           -- first receive call after the garbage: everything dropped, nothing delivered
-          if calls.isEmpty ∧ pend = 0 then ({ s' with garbageDone := true, arrived := [], delivered := [] }, none)
+          if calls.isEmpty ∧ pend = 0 then ({ s' with garbageDone := true, arrived := [], delivered := [], offset := 0 }, none)
           else (s', some ("C16", s!"undecodable data not discarded completely: {obs}"))
         else if s.mode = "garbage" then
-          let w := streamOf s'.delivered
-          if w ++ (s.arrived.drop w.length) = s.arrived ∧ w.length + pend = s.arrived.length then (s', none)
-          else (s', some ("C16", "telegram after discarded garbage not received correctly"))
+          match walkDelivered s.arrived s.offset (calls.map Prod.fst) with
+          | some off' =>
+            if off' + pend = s.arrived.length then ({ s' with offset := off' }, none)
+            else (s', some ("C16", "telegram after discarded garbage not received correctly (byte accounting)"))
+          | none => (s', some ("C16", "telegram after discarded garbage not received correctly"))
         else (s', none)
     else if k = "rx.end" ∨ k = "sim.end" then
       -- all bytes have arrived and a final receive_all was made: everything must have been delivered
